@@ -37,7 +37,7 @@ pub fn dispatch2(check: &str, lo: i64, hi: i64, seed: u64, thorough: bool, out: 
     "c17_year_month_stars" => c17_year_month_stars(lo, hi, out),
     "c18_tables" => c18_tables(lo, hi, out),
     "c20_festivals" => c20_festivals(lo, hi, out),
-    "c20_holidays" => c20_holidays(out),
+    "c20_holidays" => c20_holidays(lo, hi, out),
     "c10_history" => c10_history(lo, hi, seed, out),
     "c10_threads" => c10_threads(lo, hi, seed, out),
     "c10_refusals" => c10_refusals(lo, hi, out),
@@ -273,7 +273,20 @@ fn c14_solar_weeks(lo: i64, hi: i64, out: &mut Out) {
         if covered < len { out.fail(format!("weekcover:{}-{}:{}", y, m, start), format!("covered {} of {}", covered, len)); }
         if guard(|| SolarWeek::new(y as isize, m as usize, cnt as usize, start as usize).is_ok()) != Some(false) { out.fail(format!("weekrefuse:{}-{}:{}", y, m, start), "index == count accepted".into()); }
       }
-      // date -> week contains the date (first, 15th position, last existing date) ; stepping ; index in year
+      // date -> week: EVERY existing date of the month x 7 week starts: the reported week contains the date, starts on the
+      // chosen weekday and has the index the date's row has in the month
+      for pos in 0..len {
+        let sd = SolarDay::from_ymd(y as isize, m as usize, 1).next(pos as isize);
+        for start in 0..7i64 {
+          out.evaluations += 1;
+          let off = sp::emod(w1 - start, 7);
+          match guard(|| { let w = sd.get_solar_week(start as usize); (jdn_sd(&w.get_first_day()), w.get_index() as i64) }) {
+            Some((f, idx)) => if !(f <= n1 + pos && n1 + pos < f + 7) || sp::weekday_of(f) != start || idx != (pos + off) / 7 { out.fail(format!("weekofdate:{}:{}", sd, start), format!("week index {} starting at day number {}", idx, f)); },
+            None => if f_in_range(n1 + pos) { out.fail(format!("weekofdate:{}:{}", sd, start), "panic".into()) },
+          }
+        }
+      }
+      // stepping and index in year from three dates of the month
       for (pos, start) in [(0i64, 1usize), (len / 2, 0), (len - 1, 6), (len - 1, 1)] {
         out.evaluations += 1;
         let n = n1 + pos;
@@ -745,7 +758,7 @@ fn c20_festivals(lo: i64, hi: i64, out: &mut Out) {
 }
 
 // legal holidays: walk the table by stepping from the first record; membership for every date 2000..2030
-fn c20_holidays(out: &mut Out) {
+fn c20_holidays(lo: i64, hi: i64, out: &mut Out) {
   // first record: 2001-12-29 (found by scanning forward from 2000-01-01)
   let mut first: Option<LegalHoliday> = None;
   let mut members: Vec<(i64, bool, usize)> = vec![];
@@ -769,13 +782,14 @@ fn c20_holidays(out: &mut Out) {
       let n = jdn_sd(&h.get_day());
       if i >= members.len() || members[i].0 != n { out.fail(format!("holiday_walk:{}", h.get_day()), format!("step {} reaches {} but member #{} is day number {:?}", i, h.get_day(), i, members.get(i).map(|x| x.0))); break; }
       if i > 0 && members[i - 1].0 >= n { out.fail(format!("holiday_order:{}", h.get_day()), "not increasing".into()); }
-      // next(k) from the first record lands on member k ; next(-1) goes back
-      if i % 37 == 0 {
-        for k in [1isize, 2, 15, 40, 200] {
-          if i + k as usize >= members.len() { continue; }
-          match guard(|| h.next(k).map(|x| jdn_sd(&x.get_day()))) { Some(Some(g)) => if g != members[i + k as usize].0 { out.fail(format!("holiday_step:{}:{}", h.get_day(), k), format!("{}", g)); }, r => out.fail(format!("holiday_step:{}:{}", h.get_day(), k), format!("{:?}", r)) }
-          if i >= k as usize { match guard(|| h.next(-k).map(|x| jdn_sd(&x.get_day()))) { Some(Some(g)) => if g != members[i - k as usize].0 { out.fail(format!("holiday_stepback:{}:{}", h.get_day(), k), format!("{}", g)); }, r => out.fail(format!("holiday_stepback:{}:{}", h.get_day(), k), format!("{:?}", r)) } }
+      // next(k) lands k records further along the table, next(-k) k records back: every record x k in 1..=60, 100, 200
+      for k in (1isize..=60).chain([100isize, 200].into_iter()) {
+        if ((i % 16) as i64) < lo || ((i % 16) as i64) > hi { break; }   // records are split over 16 processes by index mod 16
+        out.evaluations += 1;
+        if i + (k as usize) < members.len() {
+          match guard(|| h.next(k).map(|x| jdn_sd(&x.get_day()))) { Some(Some(g)) => if g != members[i + k as usize].0 { out.fail(format!("holiday_step:{}:{}", h.get_day(), k), format!("lands on day number {} instead of record #{}", g, i + k as usize)); }, r => out.fail(format!("holiday_step:{}:{}", h.get_day(), k), format!("{:?}", r)) }
         }
+        if i >= k as usize { match guard(|| h.next(-k).map(|x| jdn_sd(&x.get_day()))) { Some(Some(g)) => if g != members[i - k as usize].0 { out.fail(format!("holiday_stepback:{}:{}", h.get_day(), k), format!("{}", g)); }, r => out.fail(format!("holiday_stepback:{}:{}", h.get_day(), k), format!("{:?}", r)) } }
       }
       cur = match guard(|| h.next(1)) { Some(v) => v, None => { out.fail(format!("holiday_walk:{}", h.get_day()), "panic".into()); None } };
       i += 1;
